@@ -31,6 +31,7 @@ func init() {
 const prelude = `oo := {v: 1, f: m{|x| "uf".p; x}, bad: m{"ub".p; raise ValueErr.new("vm")}, w: m{{v: 2}}, err1: m{1.try.{|n| raise TypeErr.new("captured")}.err}, kw: m{|a, k: 0| "uk".p; raise ValueErr.new("kbig") if k > 5; a + k}}
 n5 := 5.bear(oo)
 sa := "a".bear(oo)
+mp := %{"len": 5, "foo": 6}
 idf := {|x| "vc".p; x}
 ew := 1.try./(0).err
 ev := 5.try
@@ -94,7 +95,8 @@ func reducedAlphabetQuick() []step {
 
 // n5 / sa: children of a concrete int / str that carry oo's own methods (the wrapper reaches a property of the
 // value through the value's own indexing, which for ints and strs is not the plain property search)
-var receivers = []string{"5", `"a"`, "[1, 2]", "oo", "nil", "ew", "n5", "sa"}
+// mp: a map one of whose keys is spelled like a property of maps (the wrapper indexes the value with the step name)
+var receivers = []string{"5", `"a"`, "[1, 2]", "oo", "nil", "ew", "n5", "sa", "mp"}
 
 func hasOwnProps(recv string) bool { return recv == "oo" || recv == "n5" || recv == "sa" }
 
@@ -197,6 +199,13 @@ func keyOf(t tcase, class string, plain, w panrun.Obs) string {
 	if plain.Kind == "error" && plain.ErrKind == "NoPropErr" && strings.Contains(w.Repr+w.ErrMsg, "property `call` is not defined") &&
 		!strings.Contains(plain.ErrMsg, "`call`") {
 		tag = "absent-property-step"
+	}
+	if t.Recv == "mp" {
+		for _, s := range t.Steps {
+			if s.Src == ".len" || s.Src == ".foo" {
+				tag = "value-indexing-finds-an-element"
+			}
+		}
 	}
 	for _, s := range t.Steps {
 		switch s.Tag {
